@@ -338,3 +338,33 @@ func VP_C13_authenticated_mw() {
 		}
 	}
 }
+
+//vp:property C13 C07
+//vp:bounds one browser session under the cookie store: a cookie C1 issued before the login (anonymous identity) is presented, the login completes with it (the identity it was handed is named and marked authenticated, the session is saved: cookie C2), then C1 — which the browser has replaced, but which anybody who saw it before the login still holds — is presented again
+//vp:assume the session store authenticates payloads and hands back what the presented cookie carries; gob contract of the identity package; go-cache contract for code that starts to remember things
+//vp:reach old-cookie-judged
+func VP_C13_old_cookie_after_login() {
+	vpResetWeb()
+	vpSnaps = nil
+	st := vpNewStore()
+	sessionStore = st
+	r := vpRequest("GET", http.Header{}, nil)
+	// C1: what the gateway hands to a browser it has not seen before
+	vpAssert(SaveSessionIdentity(r, vpNewRW(), identity.NewUser()) == nil, "anonymous-identity-saved")
+	c1, _ := st.sess.Values[identityKey].([]byte)
+	c1 = append([]byte{}, c1...)
+	// a request with C1, then the login completes on the identity that request was handed
+	id1, _ := GetSessionIdentity(r)
+	vpAssert(id1 != nil && !id1.Authenticated(), "identity-of-a-pre-login-cookie-is-unauthenticated")
+	if id1 == nil {
+		return
+	}
+	id1.SetUserName("alice")
+	id1.SetAuthenticated(true)
+	vpAssert(SaveSessionIdentity(r, vpNewRW(), id1) == nil, "logged-in-identity-saved")
+	// C1 again
+	st.sess.Values[identityKey] = c1
+	id3, _ := GetSessionIdentity(vpRequest("GET", http.Header{}, nil))
+	vpReach("old-cookie-judged")
+	vpAssert(id3 != nil && !id3.Authenticated() && id3.UserName() == "", "a-cookie-issued-before-the-login-stays-unauthenticated")
+}
